@@ -4,8 +4,8 @@
    process/element_solution.go on every run; the loops around it (Model/Recover.v) are tied
    to the code by correspondence stage F. *)
 From Coq Require Import ZArith QArith Qabs List Bool Arith.
-From Inkfem Require Import Num.NumOps Gen.GenLoads Gen.GenRecover Spec.Stiffness
-  Model.Types Model.Slice Model.Dof Model.Assemble Model.Recover Proofs.RecoverProofs.
+From Inkfem Require Import Num.NumOps Gen.GenStiffness Gen.GenLoads Gen.GenRecover Spec.Stiffness Spec.Superposition
+  Model.Types Model.Slice Model.Dof Model.Assemble Model.Recover Proofs.RecoverProofs Proofs.FieldProofs Proofs.SystemProofs.
 Import ListNotations.
 Local Open Scope Q_scope.
 
@@ -56,6 +56,48 @@ Theorem C02_chain_statics : forall (b : bar Q) (u : list Q), good_bar b ->
   end.
 Proof. exact chain_statics. Qed.
 Print Assumptions C02_chain_statics.
+
+(* ---- where the hypothesis node_equilibrium comes from: the system of equations ----
+   For every list of sliced, numbered bars and every u that solves the system the model hands to
+   the solver (Model/Assemble.v k_final / f_final, C17): if the three numbers of an interior slice
+   node belong to it alone (C16: interior slice nodes have numbers of their own), carry no support
+   and have a row, the three rows ARE the node's equilibrium in the bar's axes. *)
+Theorem C02_interior_rows_are_node_equilibrium : forall n sup u B1 B2 p P S x0 x1 x2,
+  let bars := B1 ++ p :: B2 in
+  let b := pb_bar p in
+  pbar_nds p = P ++ x0 :: x1 :: x2 :: S ->
+  Forall (nums_below n) (all_slices bars) -> solves n bars sup u ->
+  good_bar b -> b_c b * b_c b + b_s b * b_s b == 1 ->
+  ~ slice_len b (fst x0) (fst x1) == 0 -> ~ slice_len b (fst x1) (fst x2) == 0 ->
+  no_tiny (s_k {| s_b := b; s_na := fst x0; s_nb := fst x1; s_da := snd x0; s_db := snd x1 |}) ->
+  no_tiny (s_k {| s_b := b; s_na := fst x1; s_nb := fst x2; s_da := snd x1; s_db := snd x2 |}) ->
+  NoDup (d3_list (snd x1)) ->
+  (forall i, In i (d3_list (snd x1)) ->
+     (i < n)%nat /\ is_supported sup i = false /\ row_empty (all_contribs bars) i = false /\
+     ~ In i (d3_list (snd x0)) /\ ~ In i (d3_list (snd x2)) /\
+     alone i B1 B2 (P ++ [x0]) (x2 :: S)) ->
+  node_equilibrium b u (fst x0) (fst x1) (fst x2) (snd x0) (snd x1) (snd x2).
+Proof. exact interior_node_equilibrium. Qed.
+Print Assumptions C02_interior_rows_are_node_equilibrium.
+
+(* the same for all interior nodes of all bars at once, under hypotheses that are COMPUTED (they are
+   evaluated on the implementation's own sliced structures by correspondence stage D) *)
+Theorem C02_system_gives_interior_equilibrium : forall n sup u bars,
+  nums_below_b n bars = true -> interior_private_b n sup bars = true -> forallb slices_sound_b bars = true ->
+  solves n bars sup u ->
+  forall B1 p B2, bars = B1 ++ p :: B2 -> interior_ok (pb_bar p) u (pbar_nds p).
+Proof. exact system_gives_interior_equilibrium_b. Qed.
+Print Assumptions C02_system_gives_interior_equilibrium.
+
+(* hence the chain hypothesis of C02_chain_statics (and of C03_bar_equilibrium, C01_field_across_node)
+   holds for every bar of a solved structure whose nodal loads are the lumped loads *)
+Theorem C02_chain_from_system : forall n sup u bars,
+  Forall (nums_below n) (all_slices bars) -> interior_private n sup bars -> solves n bars sup u ->
+  forall B1 p B2 na da rest, bars = B1 ++ p :: B2 -> slices_sound p ->
+  pbar_nds p = (na, da) :: map strip_load rest -> chain_static (pb_bar p) na rest ->
+  chain_ok (pb_bar p) u na da rest.
+Proof. exact system_gives_chain_ok. Qed.
+Print Assumptions C02_chain_from_system.
 
 Theorem C02_top_fibre : forall (b : bar Q) (u : list Q) (na nb : pnode Q) (da db : dof3),
   let r := slice_recover b u na nb da db in
